@@ -241,6 +241,9 @@ pub enum AckSpec {
     Far,
     /// +32768
     Half,
+    /// cumulative ACK up to (excluding) the first unacknowledged data segment whose payload exceeds
+    /// this many bytes: what a well-behaved peer behind a size-blackholing path acknowledges
+    AllFitting(usize),
 }
 
 #[derive(Clone, Copy, Debug, Serialize, Deserialize, PartialEq, Eq, Hash)]
@@ -385,6 +388,8 @@ pub struct World {
     pub ep_hi_seq: Option<u16>,
     pub ep_last_ack_nr: u16,
     pub ep_last_wnd: u32,
+    /// payload length of every data sequence number the endpoint has put on the wire (latest transmission)
+    pub ep_seg_len: std::collections::BTreeMap<u16, usize>,
     pub step: usize,
     pub done: Option<Result<(), String>>,
     pub trace: Vec<StepRecord>,
@@ -450,6 +455,7 @@ impl World {
             ep_hi_seq: None,
             ep_last_ack_nr: if cfg.incoming { cfg.peer_isn } else { cfg.peer_isn.wrapping_sub(1) },
             ep_last_wnd: cfg.rx_buf as u32,
+            ep_seg_len: Default::default(),
             step: 0,
             done: None,
             trace: vec![],
@@ -532,6 +538,23 @@ impl World {
                 } else {
                     hi
                 }
+            }
+            AckSpec::AllFitting(limit) => {
+                let mut a = self.peer_cum_ack;
+                loop {
+                    let next = a.wrapping_add(1);
+                    match self.ep_seg_len.get(&next) {
+                        Some(l) if *l <= limit => a = next,
+                        _ => break,
+                    }
+                }
+                // the FIN (no payload) fits any path
+                if let Some(h) = self.ep_hi_seq {
+                    if a.wrapping_add(1) == h && !self.ep_seg_len.contains_key(&h) {
+                        a = h;
+                    }
+                }
+                a
             }
             AckSpec::Beyond => hi.wrapping_add(1),
             AckSpec::Far => hi.wrapping_add(1000),
@@ -945,6 +968,9 @@ impl World {
             match ref_parse_message(&b) {
                 Some((h, _)) => {
                     let payload = b[h.header_len..].to_vec();
+                    if h.ptype == 0 {
+                        self.ep_seg_len.insert(h.seq, payload.len());
+                    }
                     if h.ptype == 0 || h.ptype == 1 {
                         if self.ep_first_seq.is_none() {
                             self.ep_first_seq = Some(h.seq);
@@ -1003,6 +1029,11 @@ impl World {
         out.push(self.ep_hi_seq.map(|x| x as u64).unwrap_or(u64::MAX));
         out.push(self.ep_last_ack_nr as u64);
         out.push(self.ep_last_wnd as u64);
+        for (sq, l) in &self.ep_seg_len {
+            if (sq.wrapping_sub(self.peer_cum_ack) as i16) > 0 {
+                out.push(((*sq as u64) << 32) | *l as u64);
+            }
+        }
         {
             let g = self.tr.lock();
             out.push(g.emsgsize_above.map(|x| x as u64).unwrap_or(u64::MAX));
